@@ -214,6 +214,17 @@ impl<'gc> RNode<'gc> {
     }
 }
 
+/// Pair node: its weak slot is traced *before* its strong slots (derive traces fields in order).
+#[derive(Collect)]
+#[collect(no_drop)]
+pub struct PNode<'gc> {
+    pub tok: Tok,
+    pub w: Lock<WSlot<'gc>>,
+    pub probe: Probe,
+    pub s: [Lock<Slot<'gc>>; 2],
+    pub pattern: u64,
+}
+
 /// Body of a `Gc<RefLock<Body>>`.
 #[derive(Collect)]
 #[collect(no_drop)]
@@ -269,6 +280,7 @@ pub enum Ref<'gc> {
     TStr(GcThinStr<'gc>),
     Dyn(Gc<'gc, dyn NodeLike<'gc>>),
     Arr(Gc<'gc, [Slot<'gc>]>),
+    P(Gc<'gc, PNode<'gc>>),
     Set(DynamicRootSet<'gc>, usize),
 }
 
@@ -293,6 +305,7 @@ pub enum WeakRef<'gc> {
     Str(GcWeak<'gc, str, gc_arena::gc::GcKind<gc_arena::gc::Fat, (), gc_arena::slice::StrPtrMeta>>),
     Dyn(GcWeak<'gc, dyn NodeLike<'gc>>),
     Arr(GcWeak<'gc, [Slot<'gc>]>),
+    P(GcWeak<'gc, PNode<'gc>>),
 }
 
 macro_rules! each_gc {
@@ -313,6 +326,7 @@ macro_rules! each_gc {
             Ref::TStr($g) => $e,
             Ref::Dyn($g) => $e,
             Ref::Arr($g) => $e,
+            Ref::P($g) => $e,
             Ref::Set(_, _) => unreachable!("set handled separately"),
         }
     };
@@ -333,6 +347,7 @@ macro_rules! each_weak {
             WeakRef::Str($g) => $e,
             WeakRef::Dyn($g) => $e,
             WeakRef::Arr($g) => $e,
+            WeakRef::P($g) => $e,
         }
     };
 }
@@ -371,6 +386,7 @@ impl<'gc> Ref<'gc> {
             Ref::TStr(g) => WeakRef::Str(Gc::downgrade(Gc::as_fat(g))),
             Ref::Dyn(g) => WeakRef::Dyn(Gc::downgrade(g)),
             Ref::Arr(g) => WeakRef::Arr(Gc::downgrade(g)),
+            Ref::P(g) => WeakRef::P(Gc::downgrade(g)),
             Ref::Set(_, _) => return None,
         })
     }
@@ -390,6 +406,7 @@ impl<'gc> Ref<'gc> {
             Ref::TSH(g) => g.slice.to_vec(),
             Ref::Dyn(g) => g.node().strong(),
             Ref::Arr(g) => g.to_vec(),
+            Ref::P(g) => vec![g.s[0].get(), g.s[1].get()],
             Ref::Set(_, _) => vec![],
         }
     }
@@ -399,6 +416,7 @@ impl<'gc> Ref<'gc> {
             Ref::D(g) => g.weak(),
             Ref::R(g) => g.w.iter().map(|c| c.get()).collect(),
             Ref::RB(g) => vec![g.borrow().w],
+            Ref::P(g) => vec![g.w.get()],
             Ref::Dyn(g) => g.node().weak(),
             _ => vec![],
         }
@@ -423,6 +441,7 @@ impl<'gc> Ref<'gc> {
             Ref::Str(g) => g.parse::<u32>().ok().map(|i| (i, pattern_for(i))),
             Ref::TStr(g) => g.parse::<u32>().ok().map(|i| (i, pattern_for(i))),
             Ref::Dyn(g) => Some((g.node().tok.id, g.node().pattern)),
+            Ref::P(g) => Some((g.tok.id, g.pattern)),
             Ref::LB(_) | Ref::OB(_) | Ref::Sl(_) | Ref::TSl(_) | Ref::Arr(_) | Ref::Set(_, _) => None,
         }
     }
@@ -466,6 +485,7 @@ impl<'gc> WeakRef<'gc> {
             WeakRef::Str(g) => Ref::Str(g.upgrade(mc)?),
             WeakRef::Dyn(g) => Ref::Dyn(g.upgrade(mc)?),
             WeakRef::Arr(g) => Ref::Arr(g.upgrade(mc)?),
+            WeakRef::P(g) => Ref::P(g.upgrade(mc)?),
         })
     }
 
@@ -483,6 +503,7 @@ impl<'gc> WeakRef<'gc> {
             WeakRef::Str(g) => Ref::Str(g.resurrect(fc)?),
             WeakRef::Dyn(g) => Ref::Dyn(g.resurrect(fc)?),
             WeakRef::Arr(g) => Ref::Arr(g.resurrect(fc)?),
+            WeakRef::P(g) => Ref::P(g.resurrect(fc)?),
         })
     }
 }
